@@ -21,11 +21,12 @@ Where the full statement is false of the code as it is, it is kept as a `def …
 Prop`, with the strongest `_partial` theorem (explicit side conditions) and a
 `_counterexample` from a concrete witness.  Helper lemmas live in
 CtyModel/Lemmas/{CoversBasic,CoversWeaken,OpsLogic,OpsCompare,OpsArith,OpsColl,
-OpsEquals,OpsIncludes,OpsAddSub,OpsKnown}.lean.
+OpsEquals,OpsIncludes,OpsAddSub,OpsDerived,OpsKnown}.lean.
 -/
 import CtyModel.Lemmas.OpsEquals
 import CtyModel.Lemmas.OpsIncludes
 import CtyModel.Lemmas.OpsAddSub
+import CtyModel.Lemmas.OpsDerived
 namespace CtyModel
 namespace C01
 open Value
@@ -292,6 +293,28 @@ theorem sound_equals_partial (o₁ o₂ w₁ w₂ r : Value) (hk₁ : o₁.wholl
     ∃ r', Value.equals w₁ w₂ = .ok r' ∧ Covers r' r = true :=
   equals_sound_partial o₁ o₂ w₁ w₂ r hk₁ hk₂ hf₁ hf₂ hw₁ hw₂ hc₁ hc₂ ho
 
+/-- NotEqual, LessThanOrEqualTo, GreaterThanOrEqualTo are compositions
+(`Equals(…).Not()`, `LessThan(…).Or(Equals(…))`): sound on the same fragment. -/
+theorem sound_notEqual_partial (o₁ o₂ w₁ w₂ r : Value) (hk₁ : o₁.whollyKnown = true) (hk₂ : o₂.whollyKnown = true)
+    (hf₁ : EqOperand o₁) (hf₂ : EqOperand o₂) (hw₁ : EqWeak w₁ o₁) (hw₂ : EqWeak w₂ o₂)
+    (hc₁ : CoversX w₁ o₁ = true) (hc₂ : CoversX w₂ o₂ = true) (ho : Value.notEqual o₁ o₂ = .ok r) :
+    ∃ r', Value.notEqual w₁ w₂ = .ok r' ∧ Covers r' r = true :=
+  notEqual_sound_partial o₁ o₂ w₁ w₂ r hk₁ hk₂ hf₁ hf₂ hw₁ hw₂ hc₁ hc₂ ho
+
+theorem sound_lessThanOrEqualTo_partial (o₁ o₂ w₁ w₂ r : Value) (hk₁ : o₁.whollyKnown = true) (hk₂ : o₂.whollyKnown = true)
+    (hf₁ : o₁.wfc = true) (hf₂ : o₂.wfc = true) (hg₁ : w₁.wfc = true) (hg₂ : w₂.wfc = true)
+    (he₁ : EqOperand o₁) (he₂ : EqOperand o₂) (hw₁ : EqWeak w₁ o₁) (hw₂ : EqWeak w₂ o₂)
+    (hc₁ : CoversX w₁ o₁ = true) (hc₂ : CoversX w₂ o₂ = true) (ho : Value.lessThanOrEqualTo o₁ o₂ = .ok r) :
+    ∃ r', Value.lessThanOrEqualTo w₁ w₂ = .ok r' ∧ Covers r' r = true :=
+  lessThanOrEqualTo_sound_partial o₁ o₂ w₁ w₂ r hk₁ hk₂ hf₁ hf₂ hg₁ hg₂ he₁ he₂ hw₁ hw₂ hc₁ hc₂ ho
+
+theorem sound_greaterThanOrEqualTo_partial (o₁ o₂ w₁ w₂ r : Value) (hk₁ : o₁.whollyKnown = true) (hk₂ : o₂.whollyKnown = true)
+    (hf₁ : o₁.wfc = true) (hf₂ : o₂.wfc = true) (hg₁ : w₁.wfc = true) (hg₂ : w₂.wfc = true)
+    (he₁ : EqOperand o₁) (he₂ : EqOperand o₂) (hw₁ : EqWeak w₁ o₁) (hw₂ : EqWeak w₂ o₂)
+    (hc₁ : CoversX w₁ o₁ = true) (hc₂ : CoversX w₂ o₂ = true) (ho : Value.greaterThanOrEqualTo o₁ o₂ = .ok r) :
+    ∃ r', Value.greaterThanOrEqualTo w₁ w₂ = .ok r' ∧ Covers r' r = true :=
+  greaterThanOrEqualTo_sound_partial o₁ o₂ w₁ w₂ r hk₁ hk₂ hf₁ hf₂ hg₁ hg₂ he₁ he₂ hw₁ hw₂ hc₁ hc₂ ho
+
 /-- A set compared with a set holding a partly unknown member is answered False. -/
 theorem sound_equals_set_counterexample :
     Value.equals ⟨.set (.tuple [.bool]), .sset [5] [.seq [.b true]]⟩ ⟨.set (.tuple [.bool]), .sset [5] [.seq [.b true]]⟩
@@ -352,7 +375,6 @@ with `big.Float.Add` on the BOUNDS, which rounds to the larger precision of the 
 bounds; the value an unknown stands for may carry more precision. -/
 def SoundAdd : Prop := Sound₂ Value.add
 def SoundSub : Prop := Sound₂ Value.sub
-def SoundMul : Prop := Sound₂ Value.mul
 
 /-- unknown ≤ 18446744073709551615 (a 64-bit bound) standing for the 512-bit number
 18446744073709551615, plus 0.25: the weakened result is bounded above by
